@@ -673,31 +673,41 @@ Theorem incrbyfloat_error_inert now d args e :
   snd (cmd_incrbyfloat now d args) = RErr e -> fst (cmd_incrbyfloat now d args) = d.
 Proof.
   unfold cmd_incrbyfloat. destruct args as [|k [|inc [|x r]]]; try (intros _; reflexivity).
-  destruct (parse_score inc) as [delta|]; [|intros _; reflexivity].
-  destruct (lookup now d k) as [en|]; [|intro H; discriminate H].
-  destruct (str_of en) as [old|]; [|intros _; reflexivity].
-  destruct (parse_score old); [intro H; discriminate H | intros _; reflexivity].
+  destruct (lookup now d k) as [en|].
+  - destruct (str_of en) as [old|]; [|intros _; reflexivity].
+    destruct (parse_score old); [|intros _; reflexivity].
+    destruct (parse_score inc); [intro H; discriminate H | intros _; reflexivity].
+  - destruct (parse_score inc); [intro H; discriminate H | intros _; reflexivity].
 Qed.
 
 Theorem incrbyfloat_arity now d args : length args <> 2%nat -> cmd_incrbyfloat now d args = (d, argerr).
 Proof. destruct args as [|k [|inc [|x r]]]; simpl; intro H; try reflexivity. congruence. Qed.
 
-Theorem incrbyfloat_bad_increment now d k inc :
-  parse_score inc = None -> cmd_incrbyfloat now d [k; inc] = (d, notfloat).
-Proof. intro H. unfold cmd_incrbyfloat. rewrite H. reflexivity. Qed.
-
-Theorem incrbyfloat_wrongtype now d k inc e b :
-  parse_score inc = Some b -> lookup now d k = Some e -> str_of e = None ->
+(* a key of another type: WRONGTYPE whatever the increment is (Redis tests the type first) *)
+Theorem incrbyfloat_wrongtype now d k inc e :
+  lookup now d k = Some e -> str_of e = None ->
   cmd_incrbyfloat now d [k; inc] = (d, wrongtype).
-Proof. intros H1 H2 H3. unfold cmd_incrbyfloat. rewrite H1, H2, H3. reflexivity. Qed.
+Proof. intros H2 H3. unfold cmd_incrbyfloat. rewrite H2, H3. reflexivity. Qed.
 
 Lemma str_of_none_iff e : str_of e = None <-> type_of (e_val e) <> TStr.
 Proof. unfold str_of. destruct (e_val e); simpl; split; congruence. Qed.
 
-Theorem incrbyfloat_bad_old now d k inc e old b :
-  parse_score inc = Some b -> lookup now d k = Some e -> str_of e = Some old -> parse_score old = None ->
+(* a stored text that is not a number: refused whatever the increment is *)
+Theorem incrbyfloat_bad_old now d k inc e old :
+  lookup now d k = Some e -> str_of e = Some old -> parse_score old = None ->
   cmd_incrbyfloat now d [k; inc] = (d, notfloat).
-Proof. intros H1 H2 H3 H4. unfold cmd_incrbyfloat. rewrite H1, H2, H3, H4. reflexivity. Qed.
+Proof. intros H2 H3 H4. unfold cmd_incrbyfloat. rewrite H2, H3, H4. reflexivity. Qed.
+
+(* an increment that is not a number is refused unless one of the two earlier tests already refused *)
+Theorem incrbyfloat_bad_increment now d k inc :
+  parse_score inc = None ->
+  (lookup now d k = None \/ exists e old a, lookup now d k = Some e /\ str_of e = Some old /\ parse_score old = Some a) ->
+  cmd_incrbyfloat now d [k; inc] = (d, notfloat).
+Proof.
+  intros H [L|(e & old & a & L & S & O)]; unfold cmd_incrbyfloat.
+  - rewrite L, H. reflexivity.
+  - rewrite L, S, O, H. reflexivity.
+Qed.
 
 (* success on an existing string: the text of the exact sum is stored under the old deadline and
    returned; it reads back as the sum; no other key is touched *)
@@ -711,7 +721,7 @@ Theorem incrbyfloat_existing now d k inc e old a b :
   (forall k', k' <> k -> lookup now d' k' = lookup now d k').
 Proof.
   intros H1 H2 H3 H4 t d'. split; [|split; [|split]].
-  - unfold cmd_incrbyfloat. rewrite H4, H1, H2, H3. reflexivity.
+  - unfold cmd_incrbyfloat. rewrite H1, H2, H3, H4. reflexivity.
   - apply lookup_put_keep. eapply lookup_some_live. exact H1.
   - apply sum_text.
   - intros k' Hk. apply lookup_put_other. exact Hk.
@@ -728,7 +738,7 @@ Theorem incrbyfloat_missing now d k inc b :
   (forall k', k' <> k -> lookup now d' k' = lookup now d k').
 Proof.
   intros H1 H2 t d'. split; [|split; [|split]].
-  - unfold cmd_incrbyfloat. rewrite H2, H1. reflexivity.
+  - unfold cmd_incrbyfloat. rewrite H1, H2. reflexivity.
   - apply lookup_put_none.
   - apply parse_print.
   - intros k' Hk. apply lookup_put_other. exact Hk.
@@ -748,13 +758,14 @@ Theorem incrbyfloat_reply_cases now d args :
      r = (put d k (VStr (dec_print (dec_add cur b))) exp, RBulk (dec_print (dec_add cur b)))).
 Proof.
   cbv zeta. unfold cmd_incrbyfloat. destruct args as [|k [|inc [|x r]]]; try (left; split; [reflexivity | left; reflexivity]).
-  destruct (parse_score inc) as [b|] eqn:P; [|left; split; [reflexivity | right; left; reflexivity]].
   destruct (lookup now d k) as [e|] eqn:L.
   - destruct (str_of e) as [old|] eqn:S; [|left; split; [reflexivity | right; right; reflexivity]].
     destruct (parse_score old) as [cur|] eqn:O; [|left; split; [reflexivity | right; left; reflexivity]].
+    destruct (parse_score inc) as [b|] eqn:P; [|left; split; [reflexivity | right; left; reflexivity]].
     right. exists k, inc, b, cur, (e_exp e). split; [reflexivity|]. split; [exact P|].
     split; [|reflexivity]. right. exists e, old. repeat split; assumption.
-  - right. exists k, inc, b, (mkSc 0 0), None. split; [reflexivity|]. split; [exact P|].
+  - destruct (parse_score inc) as [b|] eqn:P; [|left; split; [reflexivity | right; left; reflexivity]].
+    right. exists k, inc, b, (mkSc 0 0), None. split; [reflexivity|]. split; [exact P|].
     split; [left; split; [exact L | split; reflexivity]|].
     rewrite <- incrbyfloat_missing_as_zero. reflexivity.
 Qed.
@@ -767,6 +778,8 @@ Example incrbyfloat_ex :
   cmd_incrbyfloat 50 ex_db [s2b "k"; s2b "0.1"] = (put ex_db (s2b "k") (VStr (s2b "10.6")) (Some 100), RBulk (s2b "10.6")) /\
   cmd_incrbyfloat 50 ex_db [s2b "k"; s2b "1e3"] = (ex_db, notfloat) /\
   cmd_incrbyfloat 50 ex_db [s2b "l"; s2b "1"] = (ex_db, wrongtype) /\
+  cmd_incrbyfloat 50 ex_db [s2b "l"; s2b "abc"] = (ex_db, wrongtype) /\
+  cmd_incrbyfloat 50 ex_db [s2b "bad"; s2b "abc"] = (ex_db, notfloat) /\
   cmd_incrbyfloat 50 ex_db [s2b "bad"; s2b "1"] = (ex_db, notfloat) /\
   cmd_incrbyfloat 50 ex_db [s2b "new"; s2b "+2.50"] = (put ex_db (s2b "new") (VStr (s2b "2.5")) None, RBulk (s2b "2.5")) /\
   (* the deadline has passed: the key counts as missing, the new value has no deadline *)
